@@ -223,7 +223,7 @@ func prepare(c *syncCase) (*prepared, error) {
 		p.lines = append(p.lines, fmt.Sprintf("VERIFY %x", *c.Sync.VerifyEnd))
 	}
 	p.lines = append(p.lines, "SYNC "+hx.B(c.Sync.Verify), "EVS", "TRS")
-	evs, trs, err := canonicalRows(s)
+	evs, trs, err := canonicalRows(s, nil)
 	if err != nil {
 		return nil, err
 	}
